@@ -170,6 +170,13 @@ func init() {
 		LevelText: "every map range in the source is enumerated and classified; the classification is conservative (unknown effects fail), so 'holds' means no map order can reach stdout through these loops.",
 		LevelNote: "assumes distinct map keys produce distinct target keys in keyed stores (SetValueT from snapshots, narrowing); trusts the VTA call graph for print/global-store summaries", DesignRef: "4 MO; 5 C05"})
 
+	claim("C06", PropertySpec{
+		Engines: []EngineSpec{all("RC")},
+		Clause: "Rows are counted where runes are consumed: (RC1) from each of the lexer's rune-read sites, on every feasible path where the rune is a newline it is un-read, emitted as the newline token or kept in a string token's text before the next read or return (a swallowed newline would shift every later row); (RC2) the row counter is only changed where the lexer is advanced, once per consumed token; (RC3) the diagnostic row is only overwritten with a saved copy of itself.",
+		NotCovered: "end-of-file versus newline statement termination, comment lines inside case/in, what a layout edit does to token boundaries",
+	}, propMeta{Technique: "abstract interpretation of the lexer in the newline environment (go/ssa) + dominance rules on the row-counter stores",
+		LevelText: "all rune-read sites of the lexer and all stores to the two row fields are enumerated and decided.", LevelNote: "row fields and the advancing function are resolved by role (the int field incremented next to the lexer advance; the field assigned from it)", DesignRef: "4 RC; 5 C06"})
+
 	claim("C07", PropertySpec{
 		Engines: []EngineSpec{rules("ED", "ED-1", "ED-2")},
 		Clause: "A diagnostic, once produced, reaches the report: (ED-1) the diagnostics list has a single appending writer under the reporting-round test and is otherwise only reset per round; (ED-2) at each of the call sites whose callee may return a diagnostic built in eval / eval/method_evaluator (186 today, closed over return statements and the VTA call graph) the error result is read — not a call statement, not `_`, not a dead value.",
@@ -195,12 +202,25 @@ func init() {
 		LevelNote: "accepted repairs: save/restore of *recv in a defer, or delegation to a fresh value", DesignRef: "4 SE, PAIR; 5 C10"})
 
 	claim("C11", PropertySpec{
-		Engines: []EngineSpec{all("SE")},
-		Clause: "Evaluator and strategy singletons (43 types in the two registries) carry no state across (nested) evaluations: no store through the receiver in any method that can run on the singleton.",
-		NotCovered: "the stale lastEvaluatedT / isParsingExpression channel, GenId numbering, mutation of shared builtin method entries (C12)",
+		Engines: []EngineSpec{all("SE"), funcs("TB", "checkAndPropagateArgsForUnion")},
+		Clause: "The two global-state channels that are structurally checkable: evaluator and strategy singletons (43 types in the two registries) carry no state across (nested) evaluations — no store through the receiver in any method that can run on the singleton (SE); and the union-receiver call path does not accumulate return types into shared method-table entries (TB, the channel the property names; the full table-immutability rule is C12).",
+		NotCovered: "the stale lastEvaluatedT / isParsingExpression channel, GenId numbering",
 	}, propMeta{Technique: "receiver-alias/effect analysis of registered singletons over go/ssa",
 		LevelText: "all registered types and all methods reachable on the shared receiver are enumerated and decided.",
 		LevelNote: "registries are resolved by role: package-level maps whose element type is a module interface", DesignRef: "4 SE; 5 C11"})
+
+	claim("C12", PropertySpec{
+		Engines: []EngineSpec{all("TB")},
+		Clause: "Pointers into the shared method table (results of the method lookups, pointers into their variants, slices they are collected in, parameters that receive them) never reach a store to a signature field of T, a mutator method/function (derived from field stores), or publication as the parser's assignable last-evaluated value — unless deep-copied first or on the false edge of an is-builtin test (whole entries only).",
+		NotCovered: "aliasing through shared slice backing arrays of value-copied T beyond what the effect summaries see; argument value entries (GetValueT) guarded by IsBuiltin at run time",
+	}, propMeta{Technique: "interprocedural taint analysis over go/ssa and the VTA call graph (sources, sanitisers, mutator and publication sinks all derived from the source)",
+		LevelText: "all 66 lookup call sites are sources; every sink reached by a tainted value is an obligation; sanitised hand-offs are counted with a floor.", LevelNote: "signature fields = all fields of T except labels/annotations listed in the engine; publication is a sink because assignment stores through the published pointer (derived: a store through the asserted last-evaluated value exists)", DesignRef: "4 TB; 5 C12"})
+
+	claim("C14", PropertySpec{
+		Engines: []EngineSpec{rules("ORD", "ORD-canon")},
+		Clause: "In the argument binder every order-sensitive use of the call-site arguments is on the canonicalised list (the raw list is only measured and canonicalised), and the canonicaliser sorts the keyword partition by key.",
+		NotCovered: "consumers of the unsorted argument list outside the binder (conditional returns, execution-type calculation), evaluation order of argument expressions",
+	}, propMeta{Technique: "def-use rule on the binder's parameter over go/ssa + comparator shape check", LevelText: "all callers of the canonicaliser are enumerated; each use of the raw parameter is decided.", LevelNote: "canonicaliser resolved by role: func([]*T) []*T that partitions and sorts", DesignRef: "4 ORD-canon; 5 C14"})
 
 	claim("C15", PropertySpec{
 		Engines: []EngineSpec{rules("PAIR", "PAIR-snap"), rules("REG", "REG-rounds")},
@@ -209,9 +229,9 @@ func init() {
 	}, propMeta{Technique: "must-pass-through over the SSA CFG + agreement of string constants", LevelText: "all snapshot call sites and all round comparisons are enumerated and decided.", LevelNote: "snapshot/restore functions resolved by role (writer/reader of the package-level map[FrameKey]T)", DesignRef: "4 PAIR, REG-rounds; 5 C15"})
 
 	claim("C16", PropertySpec{
-		Engines: []EngineSpec{rules("PAIR", "PAIR-byvalue", "PAIR-ctx")},
-		Clause: "Visibility state cannot outlive its class body: the evaluator interface takes the Context by value, and every function that sets flags through a *Context parameter resets them in a defer or is called only with the address of the caller's own by-value context.",
-		NotCovered: "resolution order, new/initialize, protected checks, frame-erasing builtin-class membership (ORD-flat, when built)",
+		Engines: []EngineSpec{rules("PAIR", "PAIR-byvalue", "PAIR-ctx"), rules("ORD", "ORD-flat")},
+		Clause: "Visibility state cannot outlive its class body: the evaluator interface takes the Context by value, and every function that sets flags through a *Context parameter resets them in a defer or is called only with the address of the caller's own by-value context; and the registry used to decide 'parent is a Builtin-frame class' keeps the frame (ORD-flat).",
+		NotCovered: "resolution order, new/initialize, protected checks",
 	}, propMeta{Technique: "typestate-style flag pairing over go/ssa + call-graph check of pointer provenance", LevelText: "all functions with a *Context parameter and all their call sites are enumerated and decided.", LevelNote: "trusts the VTA call graph for callers", DesignRef: "4 PAIR; 5 C16"})
 
 	claim("C17", PropertySpec{
@@ -220,10 +240,46 @@ func init() {
 		NotCovered: "the types computed for block parameters",
 	}, propMeta{Technique: "must-pass-through over the SSA CFG + kind-constant exhaustiveness", LevelText: "all acquire sites in the block evaluator are enumerated and decided.", LevelNote: "error-return paths of the acquire itself are exempt", DesignRef: "4 PAIR; 5 C17"})
 
+	claim("C18", PropertySpec{
+		Engines: []EngineSpec{rules("ORD", "ORD-load", "ORD-prov"), rules("ED", "ED-1")},
+		Clause: "Nothing is printed while a preload file is analysed (every printing call of the analysis loop is dominated by the false edge of the load flag), diagnostics have a single writer, and the file name and the row of every record come from the same object.",
+		NotCovered: "equality with the concatenated run",
+	}, propMeta{Technique: "dominance over the SSA CFG of the analysis loop with call-graph print summaries + provenance (root object) comparison of record components", LevelText: "all printing calls of the loop and all file+row record assemblies are enumerated and decided.", LevelNote: "file-name fields are anchored by name (FileName); integer row parameters are followed to their call sites", DesignRef: "4 ORD-load, ORD-prov; 5 C18"})
+
+	claim("C19", PropertySpec{
+		Engines: []EngineSpec{rules("ORD", "ORD-overload")},
+		Clause: "The loader's 'method already exists → overload' test must be an exact-key lookup: it must not reach, in the call graph, a function that walks the inheritance table (then the answer depends on which extends edges earlier files created, i.e. on file names and splitting).",
+		NotCovered: "every other order dependence of the loader (documents, registry order)",
+	}, propMeta{Technique: "call-graph reachability from the lookup used by the overload test", LevelText: "both overload sites are enumerated and decided.", LevelNote: "overload sites resolved by role: stores to the Overloads field in package builtin", DesignRef: "4 ORD-overload; 5 C19"})
+
+	claim("C20", PropertySpec{
+		Engines: []EngineSpec{rules("ORD", "ORD-flat")},
+		Clause: "The registry consulted to decide 'is this a Builtin-frame class' must not erase the frame: its entries carry the frame or are restricted by a frame test.",
+		NotCovered: "other ways an unmentioned class could matter (inheritance edges of same-named classes)",
+	}, propMeta{Technique: "dependence rule on the registry append over go/ssa", LevelText: "the single registration site is decided.", LevelNote: "registry anchored by name (BuiltinClasses)", DesignRef: "4 ORD-flat; 5 C20"})
+
+	claim("C22", PropertySpec{
+		Engines: []EngineSpec{rules("ORD", "ORD-row")},
+		Clause: "In every evaluator that records a definition row, the row is captured in the entry block before any token is read (so multi-line definitions are recorded on the row of their first token).",
+		NotCovered: "hover content, visibility tags, the file name (C18)",
+	}, propMeta{Technique: "ordering rule over the SSA entry block with call-graph 'reads tokens' summaries", LevelText: "all 8 definition-row captures are enumerated and decided.", LevelNote: "row field anchored by name (ErrorRow); comparisons and restores are excluded by def-use", DesignRef: "4 ORD-row; 5 C22"})
+
+	claim("C24", PropertySpec{
+		Engines: []EngineSpec{rules("ORD", "ORD-spec")},
+		Clause: "Functions that evaluate on a by-value copy of the parser (condition look-ahead) cannot reach a store to an append-only global log (call points, callee points, special comments, define-info and signature articles) unless the store is dominated by a test of a parser field the look-ahead sets on its copy.",
+		NotCovered: "rows, callee lists",
+	}, propMeta{Technique: "call-graph effect reachability from speculative roots", LevelText: "all speculative roots are enumerated and decided.", LevelNote: "speculative root = by-value Parser parameter that some caller fills with *ptr", DesignRef: "4 ORD-spec; 5 C24"})
+
+	claim("C27", PropertySpec{
+		Engines: []EngineSpec{rules("ORD", "ORD-frame")},
+		Clause: "In an evaluator that switches the frame of its context, every frame read that feeds a registry key (inheritance node, defined-class and method table setters) is dominated by the switch, so that all keys of one class definition use one frame.",
+		NotCovered: "qualified reference evaluation, configured-name collisions (C16/C20)",
+	}, propMeta{Technique: "dominance rule over go/ssa", LevelText: "all frame reads feeding keys in frame-switching evaluators are enumerated and decided.", LevelNote: "SetFrame/GetFrame anchored by name on context.Context", DesignRef: "4 ORD-frame; 5 C27"})
+
 	claim("C25", PropertySpec{
-		Engines: []EngineSpec{inPkgs("MO", "cmd/rbs2json")},
-		Clause: "Determinism clause only: no range over a map in rbs2json leaks iteration order into the emitted JSON.",
-		NotCovered: "argument group order and flags, RBS type mapping, arity as checked by ti (further clauses when built)",
+		Engines: []EngineSpec{inPkgs("MO", "cmd/rbs2json"), rules("ORD", "ORD-args")},
+		Clause: "No range over a map in rbs2json leaks iteration order into the emitted JSON; the argument converter appends the six parameter groups in signature order and sets is_default / is_asterisk / key exactly for the groups that need them (groups and flags resolved through their JSON tags).",
+		NotCovered: "RBS type mapping, arity as checked by ti",
 	}, propMeta{Technique: "effect classification of map-range bodies over the type-checked AST", LevelText: "every map range of the tool is enumerated and classified.", LevelNote: "conservative classification", DesignRef: "4 MO; 5 C25"})
 
 	claim("C26", PropertySpec{
